@@ -203,6 +203,8 @@ def main(argv=None):
         broken.append({"obligation": "lake build luqumdrv (model driver)",
                        "errors": [l for l in drv_log.split("\n") if l.startswith("error")][:20]})
         ctx.escalate = True
+    from . import parsing as _parsing
+    _parsing.HISTORY_RATE[0] = 0.2 if (ctx.escalate or ctx.source_changed) else 0.04
     try:
         mod.run(ctx)
     except common.DriverError as e:
